@@ -17,7 +17,8 @@ EXTENDS Naturals, Sequences, FiniteSets, TLC
 CONSTANTS GlobalKinds,     \* names a server may put in GLOBAL_REQUEST
           OpenKinds,       \* channel kinds a server may try to open
           ReqTypes,        \* request names a server may send on a channel the client opened
-          Ports,           \* forwarded ports (tokens)
+          Ports,           \* port forwards the client may ask for (tokens; "p0" is rendered as a request for port 0:
+                           \* the server allocates the port and the client cancels with the allocated number)
           AcceptSession,   \* mutation: _parse_channel_open lets a "session" open through (FALSE = code as read)
           ApproveExec      \* mutation: _handle_request approves "exec" without a server object (FALSE = code as read)
 
@@ -31,7 +32,7 @@ VARIABLES authed,                    \* the client authenticated
           chan,                      \* a session channel opened by the client is live (target of channel requests)
           x11H, agentH, tcpH,        \* Transport._x11_handler / _forward_agent_handler / _tcp_handler is not None
           x11Req, agentReq, fwd,     \* ghosts (statement level)
-          hadFwd,                    \* ghost: some port forward was granted at some time (separates "never enabled" from "cancelled")
+          hadFwd,                    \* ghost: the forwards granted at some time (separates "never enabled" from "cancelled")
           last                       \* the last step and what the client answered
 vars == <<authed, chan, x11H, agentH, tcpH, x11Req, agentReq, fwd, hadFwd, last>>
 
@@ -40,7 +41,7 @@ Obs(op, arg, flag, reply, accepted) == [op |-> op, arg |-> arg, flag |-> flag, r
 
 Init == /\ authed = FALSE /\ chan = FALSE
         /\ x11H = FALSE /\ agentH = FALSE /\ tcpH = FALSE
-        /\ x11Req = FALSE /\ agentReq = FALSE /\ fwd = {} /\ hadFwd = FALSE
+        /\ x11Req = FALSE /\ agentReq = FALSE /\ fwd = {} /\ hadFwd = {}
         /\ last = Obs("init", "", FALSE, NoReply, FALSE)
 
 (* ---------------- client operations (user thread) ---------------- *)
@@ -75,11 +76,13 @@ RequestPortForward(p, granted) ==
   /\ (granted => authed)
   /\ tcpH' = (tcpH \/ granted)
   /\ fwd' = IF granted THEN fwd \cup {p} ELSE fwd
-  /\ hadFwd' = (hadFwd \/ granted)
+  /\ hadFwd' = IF granted THEN hadFwd \cup {p} ELSE hadFwd
   /\ last' = Obs("fwd", p, granted, NoReply, FALSE)
   /\ UNCHANGED <<authed, chan, x11H, agentH, x11Req, agentReq>>
 
-\* Transport.cancel_port_forward: the (single) handler is dropped before the request is sent
+\* Transport.cancel_port_forward: the (single) handler is dropped before the request is sent - also when another
+\* forward is still active (the statement allows refusing then; a tree that keeps the handler while fwd' # {} shows up
+\* as a conformance difference only)
 CancelPortForward(p) ==
   /\ tcpH' = FALSE
   /\ fwd' = fwd \ {p}
